@@ -12,6 +12,7 @@ import (
 
 	"mtverif/internal/core"
 	"mtverif/internal/fde"
+	"mtverif/internal/tree"
 )
 
 const pkgHTML = "golang.org/x/net/html"
@@ -533,90 +534,7 @@ var rulePragmaValue = &core.Rule{ID: "R12.7", Min: 1,
 			}
 		}
 		rec(cm.html, 0)
-		isWSTrim := func(v ssa.Value) bool {
-			call, ok := v.(*ssa.Call)
-			if !ok {
-				return false
-			}
-			switch {
-			case core.CalleeIs(&call.Call, "strings", "TrimLeft"), core.CalleeIs(&call.Call, "strings", "Trim"):
-				k, isK := core.ConstString(call.Call.Args[1])
-				if !isK {
-					return false
-				}
-				for _, w := range " \t\n\f\r" {
-					if !strings.ContainsRune(k, w) {
-						return false
-					}
-				}
-				return true
-			case core.CalleeIs(&call.Call, "strings", "TrimSpace"):
-				return true
-			}
-			// a module helper that skips leading HTML whitespace by hand: returns s[i:] where i was advanced over
-			// the bytes a predicate accepts, and the predicate (tabulated over 0..255) accepts exactly the five
-			if h := call.Call.StaticCallee(); h != nil && core.InMod(h) && h.Blocks != nil && len(h.Params) == 1 && core.IsString(h.Params[0].Type()) {
-				rs := core.Returns(h)
-				if len(rs) != 1 {
-					return false
-				}
-				sl, ok := rs[0].Results[0].(*ssa.Slice)
-				if !ok || sl.X != ssa.Value(h.Params[0]) || sl.High != nil {
-					return false
-				}
-				idx, ok := sl.Low.(*ssa.Phi)
-				if !ok {
-					return false
-				}
-				// the phi counts from 0 in steps of one, and the loop continues exactly while pred(s[idx])
-				for i, pr := range idx.Block().Preds {
-					if idx.Block().Dominates(pr) {
-						add, ok := idx.Edges[i].(*ssa.BinOp)
-						if !ok || add.Op != token.ADD || add.X != ssa.Value(idx) || !core.IsConstInt(add.Y, 1) {
-							return false
-						}
-					} else if !core.IsConstInt(idx.Edges[i], 0) {
-						return false
-					}
-				}
-				var pred *ssa.Function
-				n := 0
-				for _, ci := range core.Calls(h) {
-					if g := ci.Common().StaticCallee(); g != nil && core.InMod(g) && len(g.Params) == 1 && len(ci.Common().Args) == 1 {
-						if ix, ok := ci.Common().Args[0].(*ssa.Index); ok && ix.X == ssa.Value(h.Params[0]) && ix.Index == ssa.Value(idx) {
-							pred = g
-						}
-						if lk, ok := ci.Common().Args[0].(*ssa.Lookup); ok && lk.X == ssa.Value(h.Params[0]) && lk.Index == ssa.Value(idx) {
-							pred = g
-						}
-					}
-					if _, isB := ci.Common().Value.(*ssa.Builtin); !isB {
-						n++
-					}
-				}
-				if pred == nil || n != 1 {
-					return false
-				}
-				for v := 0; v < 256; v++ {
-					ev := newEval(c)
-					ev.Env = fde.Env{pred.Params[0]: constant.MakeInt64(int64(v))}
-					exits, err := ev.Walk(pred.Blocks[0], nil, nil, 0)
-					if err != nil || len(exits) != 1 || exits[0].Ret == nil {
-						return false
-					}
-					got, ok := exits[0].ValAt(ev, exits[0].Ret.Results[0])
-					if !ok || got.Kind() != constant.Bool {
-						return false
-					}
-					want := v == ' ' || v == '\t' || v == '\n' || v == '\f' || v == '\r'
-					if constant.BoolVal(got) != want {
-						return false
-					}
-				}
-				return true
-			}
-			return false
-		}
+		isWSTrim := func(v ssa.Value) bool { return isWSTrimValue(c, v) }
 		n := 0
 		for _, f := range fns {
 			// first bytes of strings compared with both quote characters
@@ -1130,6 +1048,312 @@ func derivesFrom(v, src ssa.Value, depth int, seen map[ssa.Value]bool) bool {
 				return true
 			}
 		}
+	}
+	return false
+}
+
+// belowSniffer lists the module functions reachable from a sniffer (static calls, four levels).
+func belowSniffer(root *ssa.Function) []*ssa.Function {
+	seen := map[*ssa.Function]bool{}
+	var fns []*ssa.Function
+	var rec func(f *ssa.Function, d int)
+	rec = func(f *ssa.Function, d int) {
+		if f == nil || f.Blocks == nil || seen[f] || d > 4 || !core.InMod(f) {
+			return
+		}
+		seen[f] = true
+		fns = append(fns, f)
+		for _, ci := range core.Calls(f) {
+			rec(ci.Common().StaticCallee(), d+1)
+		}
+		for _, an := range f.AnonFuncs {
+			rec(an, d+1)
+		}
+	}
+	rec(root, 0)
+	return fns
+}
+
+// emptyStringReturn: the exit is a return whose first result is the constant "".
+func emptyStringReturn(x fde.Exit) bool {
+	if x.Ret == nil || len(x.Ret.Results) == 0 {
+		return false
+	}
+	k, ok := core.ConstString(x.Ret.Results[0])
+	return ok && k == ""
+}
+
+var ruleXMLQuote = &core.Rule{ID: "R12.8", Min: 2,
+	Doc: "XML declaration reader (XML 1.0 production [80] EncodingDecl: the name is quoted by either \" or '): in the function that looks for the `encoding` pseudo-attribute, the byte that opens the value is tabulated over both quote characters; neither may lead to the `nothing declared` answer",
+	Run: func(c *core.Ctx, s *core.Sink) {
+		cm := getCharset(c)
+		if cm.xml == nil {
+			core.Bail("no XML sniffer registered")
+		}
+		n := 0
+		for _, f := range belowSniffer(cm.xml) {
+			// the pseudo-attribute reader: searches its text for `encoding`
+			reads := false
+			for _, ci := range core.Calls(f) {
+				cc := ci.Common()
+				g := cc.StaticCallee()
+				if g == nil || g.Pkg == nil || (g.Pkg.Pkg.Path() != "strings" && g.Pkg.Pkg.Path() != "bytes") || len(cc.Args) < 2 {
+					continue
+				}
+				if k, ok := core.ConstString(cc.Args[1]); ok && strings.Contains(k, "encoding") {
+					reads = true
+				}
+				if k, ok := tree.ConstBytes(cc.Args[1]); ok && strings.Contains(string(k), "encoding") {
+					reads = true
+				}
+			}
+			if !reads {
+				continue
+			}
+			// first byte(s) of the value: x[0] compared with a quote character
+			byStr := map[ssa.Value][]ssa.Value{}
+			quoted := map[ssa.Value]bool{}
+			for _, b := range f.Blocks {
+				for _, in := range b.Instrs {
+					var strV, idxV ssa.Value
+					switch x := in.(type) {
+					case *ssa.Lookup:
+						strV, idxV = x.X, x.Index
+					case *ssa.Index:
+						strV, idxV = x.X, x.Index
+					case *ssa.UnOp:
+						if ia, ok := x.X.(*ssa.IndexAddr); ok && x.Op == token.MUL {
+							strV, idxV = ia.X, ia.Index
+						}
+					}
+					if strV == nil || !core.IsConstInt(idxV, 0) {
+						continue
+					}
+					v := in.(ssa.Value)
+					byStr[strV] = append(byStr[strV], v)
+					for _, ref := range *v.Referrers() {
+						if bo, ok := ref.(*ssa.BinOp); ok {
+							for _, o := range []ssa.Value{bo.X, bo.Y} {
+								if k, isK := core.ConstInt(o); isK && (k == '"' || k == 0x27) {
+									quoted[strV] = true
+								}
+							}
+						}
+					}
+				}
+			}
+			for strV, looks := range byStr {
+				if !quoted[strV] {
+					continue
+				}
+				first := looks[0].(ssa.Instruction)
+				for _, l := range looks[1:] {
+					if l.(ssa.Instruction).Block().Dominates(first.Block()) && l.(ssa.Instruction).Block() != first.Block() {
+						first = l.(ssa.Instruction)
+					}
+				}
+				for _, q := range []int64{'"', 0x27} {
+					n++
+					key := fmt.Sprintf("%s: value opened by %q", core.FName(f), rune(q))
+					ev := newEval(c)
+					ev.Env = fde.Env{}
+					for _, l := range looks {
+						ev.Env[l] = constant.MakeInt64(q)
+					}
+					var prev *ssa.BasicBlock
+					if len(first.Block().Preds) > 0 {
+						prev = first.Block().Preds[0]
+					}
+					stop := func(b *ssa.BasicBlock) bool {
+						for _, in := range b.Instrs {
+							if call, ok := in.(*ssa.Call); ok {
+								if g := call.Call.StaticCallee(); g != nil && g.Pkg != nil && (g.Pkg.Pkg.Path() == "strings" || g.Pkg.Pkg.Path() == "bytes") && strings.HasPrefix(g.Name(), "Index") {
+									return true
+								}
+							}
+						}
+						return false
+					}
+					exits, err := ev.Walk(first.Block(), prev, stop, 4)
+					if err != nil || len(exits) == 0 {
+						s.Und(key, c.Pos(first.Pos()), fmt.Sprintf("the quote test does not evaluate (%v)", err))
+						continue
+					}
+					rejected := true
+					for _, x := range exits {
+						if !emptyStringReturn(x) {
+							rejected = false
+						}
+					}
+					s.Check(!rejected, key, c.Pos(first.Pos()), "the reader goes on to the closing quote",
+						fmt.Sprintf("an encoding declaration whose value is quoted with %q is answered with `nothing declared`: XML allows both quote characters (encoding='...' and encoding=\"...\")", rune(q)))
+				}
+			}
+		}
+		if n == 0 {
+			s.Und("XML pseudo-attribute reader", c.Pos(cm.xml.Pos()), "no function below the XML sniffer that searches for `encoding` and tests the first byte of the value for a quote")
+		}
+	}}
+
+var ruleHTMLTokens = &core.Rule{ID: "R12.9", Min: 2,
+	Doc: "HTML prescan: after every (*html.Tokenizer).Next the token kinds StartTagToken and SelfClosingTagToken (tabulated) both lead to the tag-name / attribute reading; <meta charset=x> and <meta charset=x/> declare the same thing",
+	Run: func(c *core.Ctx, s *core.Sink) {
+		cm := getCharset(c)
+		if cm.html == nil {
+			core.Bail("no HTML sniffer registered")
+		}
+		const htmlPkg = "golang.org/x/net/html"
+		n := 0
+		for _, f := range belowSniffer(cm.html) {
+			for _, ci := range core.Calls(f) {
+				next, ok := ci.(*ssa.Call)
+				if !ok || !core.MethodCalleeIs(&next.Call, htmlPkg, "Tokenizer", "Next") {
+					continue
+				}
+				reads := func(b *ssa.BasicBlock) bool {
+					for _, in := range b.Instrs {
+						if call, ok := in.(*ssa.Call); ok {
+							for _, m := range []string{"TagName", "TagAttr", "Token"} {
+								if core.MethodCalleeIs(&call.Call, htmlPkg, "Tokenizer", m) {
+									return true
+								}
+							}
+							// a per-tag helper of the module that is handed the tokenizer
+							if g := call.Call.StaticCallee(); g != nil && core.InMod(g) {
+								for _, a := range call.Call.Args {
+									if a == next.Call.Args[0] {
+										return true
+									}
+								}
+							}
+						}
+					}
+					return false
+				}
+				for _, kind := range []struct {
+					v    int64
+					name string
+				}{{2, "StartTagToken"}, {4, "SelfClosingTagToken"}} {
+					n++
+					key := fmt.Sprintf("%s: %s after %s", core.FName(f), kind.name, callOrdinal(next))
+					ev := newEval(c)
+					ev.Env = fde.Env{next: constant.MakeInt64(kind.v)}
+					var prev *ssa.BasicBlock
+					if len(next.Block().Preds) > 0 {
+						prev = next.Block().Preds[0]
+					}
+					exits, err := ev.Walk(next.Block(), prev, func(b *ssa.BasicBlock) bool { return b == next.Block() || reads(b) }, 4)
+					if err != nil || len(exits) == 0 {
+						s.Und(key, c.Pos(next.Pos()), fmt.Sprintf("the dispatch on the token kind does not evaluate (%v)", err))
+						continue
+					}
+					if reads(next.Block()) {
+						s.OK(key, c.Pos(next.Pos()), "tag read in the same block")
+						continue
+					}
+					proceeds := false
+					for _, x := range exits {
+						if x.Stop != nil && x.Stop != next.Block() {
+							proceeds = true
+						}
+					}
+					what := "<meta charset=x/>"
+					if kind.v == 2 {
+						what = "<meta charset=x>"
+					}
+					s.Check(proceeds, key, c.Pos(next.Pos()), "reaches the tag-name / attribute reading",
+						fmt.Sprintf("a token of kind %s is skipped without looking at its name and attributes: a declaration written as %s is ignored", kind.name, what))
+				}
+			}
+		}
+		if n == 0 {
+			s.Und("HTML tokenizer loop", c.Pos(cm.html.Pos()), "no call of (*html.Tokenizer).Next below the HTML sniffer")
+		}
+	}}
+
+// isWSTrimValue: v is its operand with the HTML whitespace (space, TAB, LF, FF, CR) skipped at the front: a library trim
+// over a set holding the five, or a module helper that advances over the bytes a predicate accepts (tabulated).
+func isWSTrimValue(c *core.Ctx, v ssa.Value) bool {
+	call, ok := v.(*ssa.Call)
+	if !ok {
+		return false
+	}
+	switch {
+	case core.CalleeIs(&call.Call, "strings", "TrimLeft"), core.CalleeIs(&call.Call, "strings", "Trim"):
+		k, isK := core.ConstString(call.Call.Args[1])
+		if !isK {
+			return false
+		}
+		for _, w := range " \t\n\f\r" {
+			if !strings.ContainsRune(k, w) {
+				return false
+			}
+		}
+		return true
+	case core.CalleeIs(&call.Call, "strings", "TrimSpace"):
+		return true
+	}
+	// a module helper that skips leading HTML whitespace by hand: returns s[i:] where i was advanced over
+	// the bytes a predicate accepts, and the predicate (tabulated over 0..255) accepts exactly the five
+	if h := call.Call.StaticCallee(); h != nil && core.InMod(h) && h.Blocks != nil && len(h.Params) == 1 && core.IsString(h.Params[0].Type()) {
+		rs := core.Returns(h)
+		if len(rs) != 1 {
+			return false
+		}
+		sl, ok := rs[0].Results[0].(*ssa.Slice)
+		if !ok || sl.X != ssa.Value(h.Params[0]) || sl.High != nil {
+			return false
+		}
+		idx, ok := sl.Low.(*ssa.Phi)
+		if !ok {
+			return false
+		}
+		// the phi counts from 0 in steps of one, and the loop continues exactly while pred(s[idx])
+		for i, pr := range idx.Block().Preds {
+			if idx.Block().Dominates(pr) {
+				add, ok := idx.Edges[i].(*ssa.BinOp)
+				if !ok || add.Op != token.ADD || add.X != ssa.Value(idx) || !core.IsConstInt(add.Y, 1) {
+					return false
+				}
+			} else if !core.IsConstInt(idx.Edges[i], 0) {
+				return false
+			}
+		}
+		var pred *ssa.Function
+		n := 0
+		for _, ci := range core.Calls(h) {
+			if g := ci.Common().StaticCallee(); g != nil && core.InMod(g) && len(g.Params) == 1 && len(ci.Common().Args) == 1 {
+				if ix, ok := ci.Common().Args[0].(*ssa.Index); ok && ix.X == ssa.Value(h.Params[0]) && ix.Index == ssa.Value(idx) {
+					pred = g
+				}
+				if lk, ok := ci.Common().Args[0].(*ssa.Lookup); ok && lk.X == ssa.Value(h.Params[0]) && lk.Index == ssa.Value(idx) {
+					pred = g
+				}
+			}
+			if _, isB := ci.Common().Value.(*ssa.Builtin); !isB {
+				n++
+			}
+		}
+		if pred == nil || n != 1 {
+			return false
+		}
+		for v := 0; v < 256; v++ {
+			ev := newEval(c)
+			ev.Env = fde.Env{pred.Params[0]: constant.MakeInt64(int64(v))}
+			exits, err := ev.Walk(pred.Blocks[0], nil, nil, 0)
+			if err != nil || len(exits) != 1 || exits[0].Ret == nil {
+				return false
+			}
+			got, ok := exits[0].ValAt(ev, exits[0].Ret.Results[0])
+			if !ok || got.Kind() != constant.Bool {
+				return false
+			}
+			want := v == ' ' || v == '\t' || v == '\n' || v == '\f' || v == '\r'
+			if constant.BoolVal(got) != want {
+				return false
+			}
+		}
+		return true
 	}
 	return false
 }
